@@ -20,7 +20,8 @@ for c in ALL:
 RESERVED = set(IMPL['properties'])
 
 TEXTS = ['a', 'Allegro', 'x < y & z > w', '"quoted" \'single\'', ' lead', 'trail ', 'two  spaces', 'tab\tin', 'line\nbreak',
-         '\U0001d11e clef', 'café ǝ', ']]>', '&amp;', '<tag>', '  ', 'ｆｕｌｌ', 'a&#10;b', 'é', '0', '1.5']
+         '\U0001d11e clef', 'café ǝ', ']]>', '&amp;', '<tag>', '  ', 'ｆｕｌｌ', 'a&#10;b', 'é', '0', '1.5',
+         'ls\u2028sep', 'ps\u2029sep', 'nel\x85x', '\ufeffbom', 'zw\u200bsp', 'nb\u00a0sp', 'soft\xadhy', 'x\u2028', '\u2029']
 
 _valid_pool = {}
 
@@ -47,7 +48,7 @@ def valid_values(tname, rnd, k=6):
         (s, e), _ = quiet(cls, v) if cls else (('exc', None), '')
         if s == 'ok' and v not in ok:
             ok.append(v)
-        if len(ok) >= 14:
+        if len(ok) >= 60:
             break
     _valid_pool[tname] = ok
     return ok
@@ -61,6 +62,41 @@ def value_type_of(cls):
     return sc.__name__ if sc else None
 
 
+WS = ['\u00a0', '\x0b', '\x0c', '\u2003', '\u2009', '\u3000', '\x1f', '\x85', '\t', '\n', '\r', '  ']
+
+
+def near(v, rnd):
+    """a value one small edit away from an accepted one (where hand-written validators go wrong)"""
+    if isinstance(v, bool):
+        return rnd.choice([0, 1, 'true', str(v)])
+    if isinstance(v, int):
+        return rnd.choice([v + 1, v - 1, float(v), str(v), v + 0.5, -v, ' %d ' % v, v * 1000])
+    if isinstance(v, float) and (v != v or abs(v) == float('inf')):
+        return rnd.choice([0.0, str(v), -v])
+    if isinstance(v, float):
+        return rnd.choice([int(v), v + 1e-9, -v, str(v), v * 1e20, v / 1e9])
+    if isinstance(v, str) and v:
+        k = rnd.randrange(len(v))
+        r = rnd.random()
+        if r < 0.25 and ' ' in v:
+            j = v.index(' ')
+            return v[:j] + rnd.choice(WS) + v[j + 1:]
+        if r < 0.45:
+            return v[:k] + rnd.choice(WS) + v[k:]
+        if r < 0.55:
+            return rnd.choice(WS) + v + rnd.choice(WS)
+        if r < 0.65:
+            return v.upper() if v != v.upper() else v.lower()
+        if r < 0.75:
+            return v[:k] + v[k + 1:]
+        if r < 0.85:
+            return v + rnd.choice('0aZ-: ,')
+        if r < 0.93:
+            return '0' + v
+        return v + v
+    return v
+
+
 def pick_value(cls, rnd, valid=True):
     vt = value_type_of(cls)
     if vt is None:
@@ -68,6 +104,8 @@ def pick_value(cls, rnd, valid=True):
     pool = valid_values(vt, rnd)
     if valid and pool:
         return rnd.choice(pool)
+    if pool and rnd.random() < 0.4:
+        return near(rnd.choice(pool), rnd)
     return rnd.choice(NUMS + STRS + TEXTS)
 
 
@@ -84,6 +122,8 @@ def pick_attrs(cls, rnd, valid=True, n=None):
         pool = valid_values(tn, rnd)
         if valid and pool:
             v = rnd.choice(pool)
+        elif pool and rnd.random() < 0.4:
+            v = near(rnd.choice(pool), rnd)
         else:
             v = rnd.choice(NUMS + STRS)
         key = an.replace('-', '_') if rnd.random() < 0.7 else an
@@ -159,6 +199,25 @@ class World:
         self.lines.append(('add %d %d' % (i, j), m.split('|')[0], r))
         return m.split('|')[0], r
 
+    def setchk(self, i, b):
+        self.objs[i].xsd_check = b
+        return self.step('setchk %d %d' % (i, 1 if b else 0), 'ok')
+
+    def below(self, j):
+        """ids of the objects reachable from j through either child list (cycle guard)"""
+        inv = {id(x): k for k, x in self.objs.items()}
+        seen, todo = set(), [self.objs[j]]
+        while todo:
+            o = todo.pop()
+            if id(o) in seen:
+                continue
+            seen.add(id(o))
+            todo += list(o._unordered_children)
+            t = o._child_container_tree
+            if t is not None:
+                todo += [x for leaf in t.iterate_leaves() for x in (leaf.content.xml_elements or [])]
+        return {inv[k] for k in seen if k in inv}
+
     def rm(self, i, j):
         p, c = self.objs[i], self.objs[j]
         (s, e), out = quiet(p.remove, c)
@@ -211,7 +270,12 @@ class World:
                 self.objs[nid] = new[0]
         else:
             n = type(e).__name__
-            r = exc_enum(e, 'add') if n in DOCUMENTED else ('err:notAChild' if n == 'ValueError' and False else real_exc(e))
+            import traceback as _tb
+            frames = [f.name for f in _tb.extract_tb(e.__traceback__)]
+            structural = n == 'ValueError' and frames and frames[-1] in ('replace_child', 'remove')
+            r = exc_enum(e, 'add') if n in DOCUMENTED else ('err:notAChild' if structural else real_exc(e))
+            if n == 'AttributeError' and ('remove' in frames or 'replace_child' in frames):
+                r = 'err:internal:AttributeError'     # not the documented unknown-name error: a None leaf pointer
         a = ('inst:%d' % inst) if inst is not None else enc(value)
         return self.step('dotx %d %s %d %s' % (i, key.encode().hex(), nid, a), r)
 
@@ -245,7 +309,8 @@ class World:
             inv = {id(o): k for k, o in self.objs.items()}
             def reg(orig, cp):
                 self.objs[inv[id(orig)] + off] = cp
-                for a, b in zip(orig.get_children(), cp.get_children()):
+                # __deepcopy__ re-adds the copies in the original's ordered view: the copy's insertion order is that order
+                for a, b in zip(orig.get_children(), cp.get_children(ordered=False)):
                     if id(a) in inv:
                         reg(a, b)
             reg(self.objs[i], e)
@@ -310,11 +375,22 @@ def build_tree(w, rnd, cls, depth, nid, chk=True, valid=True, mixed_chk=False):
                     continue
                 j = build_tree(w, rnd, BY_NAME[n], depth - 1, nid, chk, valid, mixed_chk)
                 if j is not None:
-                    w.add(i, j)
+                    w.add(i, j, rnd.choice([0, 1, 1, -1, 2]) if rnd.random() < 0.06 else None)
     return i
 
 
-def doc_case(drv, rnd, cls=None, depth=2, mixed_chk=False, mutate=True, copy=False, dots=True, roots=1):
+def _repeated(k):
+    ls = leaves_of(TREE[k])
+    return [n for n in ALPHA[k] if ls.count(n) > 1]
+
+
+REPEATED = {k: _repeated(k) for k in TREE}
+# element classes whose content model is outside the Slotted class or repeats a leaf name: the
+# histories that matter (forward=, intelligent choice, duplication) only exist there
+HARD = [c for k in TREE if k in CLASSES_OF and (CLASS_OF_TYPE[k] == 'wild' or REPEATED[k]) for c in CLASSES_OF[k]]
+
+
+def doc_case(drv, rnd, cls=None, depth=2, mixed_chk=False, mutate=True, copy=False, dots=True, roots=1, reuse=False, sandwich=False):
     """one generated document + a few mutations + serialisations; returns the World"""
     w = World(drv)
     cls = cls or rnd.choice(ALL)
@@ -323,6 +399,32 @@ def doc_case(drv, rnd, cls=None, depth=2, mixed_chk=False, mutate=True, copy=Fal
     if root is None:
         return w
     w.tostr(root)
+    if sandwich and type(w.objs[root]).TYPE.__name__ in containers:
+        # checked root > unchecked middle > checked element of a hard content model holding a short word:
+        # the unchecked node must be transparent for the final checks (with and without intelligent choice)
+        k = type_key(type(w.objs[root]).TYPE)
+        mcls = BY_NAME.get(rnd.choice(ALPHA[k]))
+        bcls = rnd.choice(HARD)
+        if mcls is not None:
+            mid = nid[0]; nid[0] += 1
+            m0, r0 = w.newe(mid, mcls, False, pick_value(mcls, rnd, True), pick_attrs(mcls, rnd, True, 0))
+            bot = nid[0]; nid[0] += 1
+            m1, r1 = w.newe(bot, bcls, True, pick_value(bcls, rnd, True), pick_attrs(bcls, rnd, True))
+            if r0 == 'ok' and r1 == 'ok':
+                word = matcher.sample_word(matcher.SPECTREE[type_key(bcls.TYPE)], rnd, extra=0)[:4]
+                if rnd.random() < 0.3 and word:
+                    del word[rnd.randrange(len(word))]
+                for n in word:
+                    if n in BY_NAME:
+                        j = build_tree(w, rnd, BY_NAME[n], 0, nid, True, True, False)
+                        if j is not None:
+                            w.add(bot, j)
+                w.add(mid, bot)
+                w.add(root, mid)
+                ic = rnd.random() < 0.7
+                w.tostr(bot, ic)
+                w.tostr(root, ic)
+                w.tostr(root, not ic)
     others = []
     for _ in range(roots - 1):
         # further, independent documents in the same process: same class or another one; their
@@ -332,17 +434,30 @@ def doc_case(drv, rnd, cls=None, depth=2, mixed_chk=False, mutate=True, copy=Fal
         if r2 is not None:
             others.append(r2)
     ids = list(w.objs)
+    detached = []
     if mutate:
-        for _ in range(rnd.randint(1, 6)):
+        for _ in range(rnd.randint(1, 6) if not reuse else rnd.randint(3, 10)):
             i = rnd.choice(ids)
             o = w.objs[i]
             r = rnd.random()
-            if r < 0.35:
+            if r < 0.1 and o.attributes:
+                # an attribute that is already set: same number in the other numeric type, removed and set again, near value
+                an = rnd.choice(list(o.attributes))
+                v = o.attributes[an]
+                q = rnd.random()
+                if q < 0.35 and isinstance(v, (int, float)) and not isinstance(v, bool) and v == v and abs(v) < 1e15:
+                    w.attr(i, an.replace('-', '_'), float(v) if isinstance(v, int) else (int(v) if v == int(v) else v))
+                elif q < 0.7:
+                    w.attr(i, an.replace('-', '_'), None)
+                    w.attr(i, an.replace('-', '_'), v)
+                else:
+                    w.attr(i, an.replace('-', '_'), near(v, rnd))
+            elif r < 0.35:
                 tbl = ATTRS.get(type(o).__name__)
                 if tbl:
                     an, tn, _ = rnd.choice(tbl)
                     pool = valid_values(tn, rnd)
-                    v = rnd.choice([None] + (pool or [1]) + [rnd.choice(NUMS + STRS)])
+                    v = rnd.choice([None] + (pool or [1]) + [rnd.choice(NUMS + STRS)] + ([near(rnd.choice(pool), rnd)] * 3 if pool else []))
                     w.attr(i, an.replace('-', '_'), v)
                 else:
                     w.attr(i, rnd.choice(['font_size', 'id', 'foo', 'number']), rnd.choice([1, 'a', None]))
@@ -352,16 +467,27 @@ def doc_case(drv, rnd, cls=None, depth=2, mixed_chk=False, mutate=True, copy=Fal
                 ch = rnd.choice(o.get_children(ordered=False))
                 inv = {id(x): k for k, x in w.objs.items()}
                 if id(ch) in inv:
-                    w.rm(i, inv[id(ch)])
+                    m0, r0 = w.rm(i, inv[id(ch)])
+                    if r0 == 'ok':
+                        detached.append(inv[id(ch)])
             elif r < 0.66 and o.get_children(ordered=False):
                 ch = rnd.choice(o.get_children(ordered=False))
                 inv = {id(x): k for k, x in w.objs.items()}
-                if id(ch) in inv:
+                if id(ch) in inv and rnd.random() < 0.12:
+                    # replaced by itself (what `e.xml_x = e.xml_x` does), then used further
+                    w.repl(i, inv[id(ch)], inv[id(ch)])
+                    w.obs(i)
+                    if rnd.random() < 0.6:
+                        w.rm(i, inv[id(ch)])
+                        w.obs(i)
+                elif id(ch) in inv:
                     j = nid[0]; nid[0] += 1
                     ncls = type(ch) if rnd.random() < 0.85 else rnd.choice(ALL)
                     m0, r0 = w.newe(j, ncls, True, pick_value(ncls, rnd, True), pick_attrs(ncls, rnd, True, 0))
                     if r0 == 'ok' and m0 == 'ok':
-                        w.repl(i, inv[id(ch)], j)
+                        m1, r1 = w.repl(i, inv[id(ch)], j)
+                        if r1 == 'ok':
+                            detached.append(inv[id(ch)])
                         w.obs(i)
                         ids[:] = list(w.objs)
             elif r < 0.7:
@@ -372,6 +498,11 @@ def doc_case(drv, rnd, cls=None, depth=2, mixed_chk=False, mutate=True, copy=Fal
                 names = ALPHA[type_key(type(o).TYPE)]
                 cn = rnd.choice(names + ['foo', 'level']) if rnd.random() < 0.9 else 'note'
                 key = 'xml_' + cn.replace('-', '_')
+                if rnd.random() < 0.08:
+                    # malformed shortcut names: empty parts, doubled prefix, case
+                    base = cn.replace('-', '_')
+                    key = rnd.choice(['xml_', 'xml__', 'xml_' + base + '_', 'xml__' + base, 'xml_xml_' + base, 'xml_' + base.upper(),
+                                      'xml_' + base.replace('_', '__', 1), 'xml_' + base + 'xml_', 'xml_x_', 'xml_-', 'xml_' + cn])
                 ccls = BY_NAME.get(cn)
                 q = rnd.random()
                 nid[0] += 2
@@ -389,9 +520,38 @@ def doc_case(drv, rnd, cls=None, depth=2, mixed_chk=False, mutate=True, copy=Fal
                     w.dotx(i, key, fresh1, v)
                 w.obs(i)
                 ids[:] = list(w.objs)
+            elif r < 0.87 and type(o).TYPE.__name__ in containers and o.xsd_check:
+                # a fresh child by name, now and then with an explicit forward= index
+                k = type_key(type(o).TYPE)
+                names = REPEATED.get(k) if REPEATED.get(k) and rnd.random() < 0.7 else ALPHA[k]
+                cn = rnd.choice(names)
+                ccls = BY_NAME.get(cn)
+                if ccls is not None:
+                    j = nid[0]; nid[0] += 1
+                    m0, r0 = w.newe(j, ccls, True, pick_value(ccls, rnd, True), pick_attrs(ccls, rnd, True, 0))
+                    if r0 == 'ok' and m0 == 'ok':
+                        w.add(i, j, rnd.choice([None, None, 0, 1, 1, 2, -1, 3]) if REPEATED.get(k) or rnd.random() < 0.3 else None)
+                        w.obs(i)
+                        ids[:] = list(w.objs)
+            elif r < 0.89 and reuse:
+                # an existing instance (detached earlier, or still attached elsewhere) is added to another element
+                j = rnd.choice(detached) if detached and rnd.random() < 0.7 else rnd.choice(ids)
+                up, chain = w.objs[i], []
+                while up is not None and len(chain) < 100:
+                    chain.append(up)
+                    up = up._parent
+                # no cycles, neither through the child lists nor through (possibly stale) parent pointers
+                if i not in w.below(j) and not any(x is w.objs[j] for x in chain):
+                    w.add(i, j)
+                    w.obs(i)
+                    w.tostr(i)
+            elif r < 0.92 and reuse:
+                w.setchk(i, not o.xsd_check)
+                w.obs(i)
+                w.tostr(i)
             else:
-                w.tostr(i, rnd.random() < 0.2)
-        w.tostr(root)
+                w.tostr(i, rnd.random() < 0.35)
+        w.tostr(root, mixed_chk or rnd.random() < 0.3)
         w.tostr(root)
         for r2 in others:
             w.tostr(r2)
